@@ -24,7 +24,7 @@ ASSUMPTIONS = ['the document is brought to a fixpoint with Calculate before the 
                'are C04\'s known finding)', 'a side-effect formula adds rows to a different table over a bounded key space',
                'exceptions raised by the call itself are allowed']
 BUDGET = {'quick': dict(examples=1100, shards=16, max_seconds=75),
-          'thorough': dict(examples=16000, shards=16, max_seconds=1800)}
+          'thorough': dict(examples=3500, shards=16, max_seconds=1800)}
 SHRINK_BUDGET = {'quick': 60, 'thorough': 400}
 FNS = ['fetch_table', 'fetch_meta_tables', 'get_formula_error', 'evaluate_formula', 'get_formula_prompt',
        'autocomplete', 'find_col_from_values']
